@@ -116,7 +116,8 @@ impl StackPointerOffset {
         /*@spec*/ usize::BITS == 64 ==> (match reported(*intermediate) { Some(x) => r == Ok::<StackPointerOffset, Error>(x), None => r is Err }),
 //@ enter
     proof {
-        if let IntermediateOffset::Value(c) = *intermediate {
+        if *intermediate is Value {
+            let c = intermediate->Value_0;
             if c.bits <= 64 && c.bits as nat <= usize::BITS { lemma_reported_fits(c.bits as nat, c.value@); }
         }
     }
@@ -138,11 +139,17 @@ impl StackPointerOffset {
     let ghost m0 = states@;
 //@ loop 0
     invariant
+        m0 == states@,
         hashmap_into_items::lists_entries(vf_items@, m0),
         vf_it.seq() == vf_items@,
         forall|k: il::ProgramLocation| #[trigger] m0.contains_key(k) ==> io_wf(m0[k]),
         forall|k: il::ProgramLocation| #[trigger] t@.contains_key(k) <==> (exists|i: int| 0 <= i < vf_it.index@ && (#[trigger] vf_items@[i]).0 == k),
         forall|i: int| 0 <= i < vf_it.index@ ==> (usize::BITS == 64 ==> reported((#[trigger] vf_items@[i]).1) == Some(t@[vf_items@[i].0])),
+//@ before 0 `t.insert(`
+    proof {
+        assert(vf_items@[vf_it.index@] == (rpl, ispo));
+        assert(m0.contains_key(rpl) && m0[rpl] == ispo);
+    }
 //@ end
 
 // ---- the analysis ------------------------------------------------------------------------------------
@@ -293,7 +300,8 @@ impl StackPointerOffsetAnalysis {
     proof {
         lemma_handle_facts(self.stack_pointer, *operation, stack_pointer_offset);
         if is_assign_to(*operation, self.stack_pointer) && is_transl(self.stack_pointer, assign_src(*operation)) && expr_wf(assign_src(*operation)) {
-            if let IntermediateOffset::Value(c) = stack_pointer_offset {
+            if stack_pointer_offset is Value {
+                let c = stack_pointer_offset->Value_0;
                 if c.bits == self.stack_pointer.bits { lemma_replace_total(assign_src(*operation), self.stack_pointer, c); }
             }
         }
@@ -320,6 +328,111 @@ impl<'f> StackPointerOffsetAnalysis {
         /*@le_consistent*/ r matches Ok(j) ==> a_le(abs(state0), abs(j)) && a_le(abs(*state1), abs(j)),
         /*@least*/ r matches Ok(j) ==> abs(j) == a_join(abs(state0), abs(*state1)),
         /*@wf*/ (io_wf(state0) && io_wf(*state1)) ==> (r matches Ok(j) && io_wf(j)),
+//@ end
+
+} // impl
+
+// ---- trans ---------------------------------------------------------------------------------------------
+
+/// the instruction of `f` at block `b`, instruction index `i`
+pub open spec fn instr_of(f: Function, b: usize, i: usize) -> Instruction {
+    let blk = f.control_flow_graph.blocks_view()[b];
+    blk.instructions@[choose|p: int| instr_at(blk, p, i)]
+}
+
+/// the operation a location executes (edges and empty blocks execute nothing)
+pub open spec fn loc_op(f: Function, l: Loc) -> Option<Operation> {
+    match l {
+        Loc::Instruction(b, i) => Some(instr_of(f, b, i).operation),
+        _ => None,
+    }
+}
+
+/// every right-hand side in the function is sane (see op_sane)
+pub open spec fn fn_sane(f: Function) -> bool {
+    forall|b: usize, p: int| #![trigger f.control_flow_graph.blocks_view()[b].instructions@[p]]
+        f.control_flow_graph.has_block(b) && 0 <= p < f.control_flow_graph.blocks_view()[b].instructions@.len()
+            ==> op_sane(f.control_flow_graph.blocks_view()[b].instructions@[p].operation)
+}
+
+/// the abstract value the analysis starts from when a location has no incoming information:
+/// a ZERO OF THE STACK POINTER'S WIDTH at the function entry, unknown elsewhere (None: the function has no entry)
+pub open spec fn seed_abs(sp: Scalar, f: Function, l: Loc) -> Option<AOff> {
+    if entry_loc(f) is None { None } else if entry_loc(f) == Some(l) { Some(AOff::Value(sp.bits as nat, 0)) } else { Some(AOff::Top) }
+}
+
+/// the transfer function of a location (None = error)
+pub open spec fn trans_abs(sp: Scalar, f: Function, l: Loc, s: Option<AOff>) -> Option<AOff> {
+    let input = match s { Some(a) => Some(a), None => seed_abs(sp, f, l) };
+    match input {
+        None => None,
+        Some(a) => match loc_op(f, l) {
+            Some(op) => handle_abs(sp, op, a),
+            None => Some(a),
+        },
+    }
+}
+
+pub open spec fn opt_abs(s: Option<IntermediateOffset>) -> Option<AOff> {
+    match s { Some(x) => Some(abs(x)), None => None }
+}
+
+/// a borrowed instruction location of a well-formed function executes the operation `loc_op` names
+pub proof fn lemma_loc_op(x: RefProgramLocation)
+    requires x.rpl_wf(),
+    ensures
+        x.function_location matches RefFunctionLocation::Instruction(b, ins) ==> loc_op(*x.function, x.loc()) == Some(ins.operation),
+        !(x.function_location is Instruction) ==> loc_op(*x.function, x.loc()) is None,
+        fn_sane(*x.function) ==> (x.function_location matches RefFunctionLocation::Instruction(b, ins) ==> op_sane(ins.operation)),
+{
+    let f = *x.function;
+    match x.function_location {
+        RefFunctionLocation::Instruction(b, ins) => {
+            let blk = f.control_flow_graph.blocks_view()[b.index];
+            assert(blk == *b);
+            assert(blk.block_wf());
+            let p = choose|p: int| 0 <= p < b.instructions@.len() && #[trigger] b.instructions@[p] == *ins;
+            assert(instr_at(blk, p, ins.index));
+            let q = choose|q: int| instr_at(blk, q, ins.index);
+            if p < q { assert(blk.instructions@[p].index != blk.instructions@[q].index); }
+            if q < p { assert(blk.instructions@[q].index != blk.instructions@[p].index); }
+            assert(f.control_flow_graph.blocks_view()[b.index].instructions@[p] == *ins);
+        }
+        _ => {}
+    }
+}
+
+/// two borrowed locations of the same well-formed function are equal iff they denote the same abstract location
+pub proof fn lemma_rpl_eq(x: RefProgramLocation, y: RefProgramLocation)
+    requires x.rpl_wf(), y.rpl_wf(), *x.function == *y.function,
+    ensures (x == y) <==> (x.loc() == y.loc()),
+{
+    if x.loc() == y.loc() {
+        lemma_rfl_in_unique(*x.function, x.function_location, y.function_location);
+    }
+}
+
+impl<'f> StackPointerOffsetAnalysis {
+
+//@ fn impl<'f> fixed_point::FixedPointAnalysis<'f, IntermediateOffset> for StackPointerOffsetAnalysis :: fn trans
+//@ spec
+    requires
+        location.rpl_wf(), fn_sane(*location.function), sp_ok(self.stack_pointer),
+        state matches Some(s) ==> io_wf(s),
+    ensures
+        /*@entry_seed*/ (state is None && entry_loc(*location.function) == Some(location.loc())) ==>
+            (r matches Ok(a2) ==> trans_abs(self.stack_pointer, *location.function, location.loc(), Some(AOff::Value(self.stack_pointer.bits as nat, 0))) == Some(abs(a2))),
+        /*@other_seed*/ (state is None && entry_loc(*location.function) is Some && entry_loc(*location.function) != Some(location.loc())) ==>
+            (r matches Ok(a2) ==> trans_abs(self.stack_pointer, *location.function, location.loc(), Some(AOff::Top)) == Some(abs(a2))),
+        /*@spec*/ r matches Ok(a2) ==> trans_abs(self.stack_pointer, *location.function, location.loc(), opt_abs(state)) == Some(abs(a2)) && io_wf(a2),
+        /*@no_entry*/ (state is None && entry_loc(*location.function) is None) ==> r is Err,
+        /*@completes*/ r is Err ==> (trans_abs(self.stack_pointer, *location.function, location.loc(), opt_abs(state)) is None
+            || (loc_op(*location.function, location.loc()) matches Some(op) && is_assign_to(op, self.stack_pointer) && is_transl(self.stack_pointer, assign_src(op))
+                && !(expr_wf(assign_src(op)) && (state matches Some(s) ==> s->Value_0.bits == self.stack_pointer.bits)))),
+//@ enter
+    proof { lemma_loc_op(location); }
+//@ before 0 `if location == function_entry`
+    proof { lemma_rpl_eq(location, function_entry); }
 //@ end
 
 } // impl
